@@ -214,3 +214,8 @@ package file
 //@ props C05
 //@ ensures [C05,exactly-the-matching-non-hidden-paths] result1 == nil ==> result0 == globSpec(fsid, root, pattern)
 //@ at return GlobWalk#0: use globwalk_iter(root, pattern, matches, err)
+
+// ExpandGlob (used by --clean): what currently matches, never a stored expansion
+//@ func (*SpokFile).ExpandGlob
+//@ props C05 C12
+//@ ensures [C05,current-expansion] result1 == nil ==> result0 == globSpec(fsid, s.Dir, pattern)
